@@ -640,7 +640,7 @@ def _conclude(mod, prop, tier, seed, results, wall):
             lines.append("  oracle=%s sig=%s" % (v["oracle"], json.dumps(v["sig"], default=str)[:400]))
             lines.append("  expected=%s" % json.dumps(v["expected"], default=str)[:300])
             lines.append("  observed=%s" % json.dumps(v["observed"], default=str)[:300])
-            if len(seen) >= 20:
+            if len(seen) >= 60:
                 break
 
     min_nontrivial = spec.get("min_nontrivial", {}).get(tier, 2)
